@@ -5,10 +5,13 @@ import sys, codecs
 from .base import *
 REASON = {'invalid start byte': 101, 'invalid continuation byte': 102, 'unexpected end of data': 103, 'illegal encoding': 104, 'illegal UTF-16 surrogate': 105, 'truncated data': 106}
 class S:
-    def __init__(s, data, sizes): s.d = data; s.sizes = list(sizes); s.n = 0
+    """a stream that serves what is asked for (never more), a scheduled size first; the sizes asked are recorded: the model asks
+    for one 4096-unit block per refill, an implementation that asks for anything else is reported as outcome AskedSize"""
+    def __init__(s, data, sizes): s.d = data; s.sizes = list(sizes); s.n = 0; s.asked = set()
     def read(s, n):
-        k = s.sizes.pop(0) if s.sizes else 4096
-        k = max(1, min(k, 4096)); k = min(k, n); r = s.d[:k]; s.d = s.d[k:]; s.n += 1; return r
+        s.asked.add(n)
+        k = s.sizes.pop(0) if s.sizes else n
+        k = max(1, min(k, n)); r = s.d[:k]; s.d = s.d[k:]; s.n += 1; return r
 
 def run_impl_case(case):
     from yaml.reader import Reader, ReaderError
@@ -24,6 +27,7 @@ def run_impl_case(case):
             else:
                 r.forward(k); obs.append('p%d/%d/%d/%d/%d' % (r.index, r.line, r.column, r.stream_pointer, src.n if src else 0))
         st = 'ok'
+        if src is not None and src.asked - {4096}: st = 'AskedSize ' + ','.join(map(str, sorted(src.asked)))
     except ReaderError as e:
         ch = e.character if isinstance(e.character, int) else ord(e.character)
         st = 'ReaderError %d %d %d' % (e.position, ch, REASON.get(e.reason, 0))
